@@ -66,16 +66,18 @@ def eXDHeader : Layout :=
     .mk "index_size" none .none 2 (.prim .u32) 0 20] true
 end Expected
 
-/-! ### step 2 (re-checked on every run; `.little` as the ambient endianness shows that the
-structs' own `#[brw(big)]` decides) -/
+/-! ### step 2 (re-checked on every run).  The ambient endianness is the one of the enclosing
+top-level structs `EXH` / `EXD` (`#[brw(big)]`, regenerated: `endian_generated`). -/
+theorem endian_generated :
+    BinrwExcel.eXH.endianOr .little = .big ∧ BinrwExcel.eXD.endianOr .little = .big := ⟨rfl, rfl⟩
 theorem eXHHeader_generated :
-    BinrwExcel.eXHHeader.normalizeAt .little = Expected.eXHHeader.normalizeAt .little := rfl
+    BinrwExcel.eXHHeader.normalizeAt .big = Expected.eXHHeader.normalizeAt .big := rfl
 theorem excelDataPagination_generated :
-    BinrwExcel.excelDataPagination.normalizeAt .little = Expected.excelDataPagination.normalizeAt .little := rfl
+    BinrwExcel.excelDataPagination.normalizeAt .big = Expected.excelDataPagination.normalizeAt .big := rfl
 theorem excelDataOffset_generated :
-    BinrwExcel.excelDataOffset.normalizeAt .little = Expected.excelDataOffset.normalizeAt .little := rfl
+    BinrwExcel.excelDataOffset.normalizeAt .big = Expected.excelDataOffset.normalizeAt .big := rfl
 theorem eXDHeader_generated :
-    BinrwExcel.eXDHeader.normalizeAt .little = Expected.eXDHeader.normalizeAt .little := rfl
+    BinrwExcel.eXDHeader.normalizeAt .big = Expected.eXDHeader.normalizeAt .big := rfl
 
 /-! ### projections -/
 def exhHeaderOf : List Value → Option Exh.EXHHeader
@@ -90,17 +92,17 @@ def dataOffsetOf : List Value → Option Exd.ExcelDataOffset
 
 /-! ### step 1 -/
 theorem pHeader_eq_expected (l : Bytes) :
-    Exh.pHeader l = via exhHeaderOf (Layout.read .little Expected.eXHHeader l) := by
+    Exh.pHeader l = via exhHeaderOf (Layout.read .big Expected.eXHHeader l) := by
   binrw_norm [Exh.pHeader, Exh.exhMagic, Expected.eXHHeader, p_bind, p_pure, p_pure', pure, p_skip, p_u16be, p_u32be, p_magic]
   rfl
 
 theorem pPage_eq_expected (l : Bytes) :
-    Exh.pPage l = via pageOf (Layout.read .little Expected.excelDataPagination l) := by
+    Exh.pPage l = via pageOf (Layout.read .big Expected.excelDataPagination l) := by
   binrw_norm [Exh.pPage, Expected.excelDataPagination, p_bind, p_pure, p_pure', pure, p_u32be]
   rfl
 
 theorem pDataOffset_eq_expected (l : Bytes) :
-    Exd.pDataOffset l = via dataOffsetOf (Layout.read .little Expected.excelDataOffset l) := by
+    Exd.pDataOffset l = via dataOffsetOf (Layout.read .big Expected.excelDataOffset l) := by
   binrw_norm [Exd.pDataOffset, Expected.excelDataOffset, p_bind, p_pure, p_pure', pure, p_u32be]
   rfl
 
@@ -114,7 +116,7 @@ def dataOffsetOfV : Value → Option Exd.ExcelDataOffset
 /-- `#[br(count = n)] Vec<ExcelDataPagination>` -/
 theorem countPage_eq_expected (n : Nat) (l : Bytes) :
     ParserBE.count Exh.pPage n l =
-      (repeatN (Kind.read .little [] (.struct Expected.excelDataPagination)) n l).bind fun vs =>
+      (repeatN (Kind.read .big [] (.struct Expected.excelDataPagination)) n l).bind fun vs =>
         (projAll pageOfV vs.1).map (·, vs.2) := by
   apply listReader_eq_repeatN Exh.pPage (ParserBE.count Exh.pPage)
   · intro l; rfl
@@ -127,7 +129,7 @@ theorem countPage_eq_expected (n : Nat) (l : Bytes) :
 /-- `#[br(count = n)] Vec<ExcelDataOffset>` -/
 theorem countDataOffset_eq_expected (n : Nat) (l : Bytes) :
     ParserBE.count Exd.pDataOffset n l =
-      (repeatN (Kind.read .little [] (.struct Expected.excelDataOffset)) n l).bind fun vs =>
+      (repeatN (Kind.read .big [] (.struct Expected.excelDataOffset)) n l).bind fun vs =>
         (projAll dataOffsetOfV vs.1).map (·, vs.2) := by
   apply listReader_eq_repeatN Exd.pDataOffset (ParserBE.count Exd.pDataOffset)
   · intro l; rfl
@@ -141,7 +143,7 @@ theorem countDataOffset_eq_expected (n : Nat) (l : Bytes) :
 `index_size / 8` offsets -/
 theorem pExdHead_eq_expected (l : Bytes) :
     Exd.pExdHead l =
-      (Layout.read .little Expected.eXDHeader l).bind fun x =>
+      (Layout.read .big Expected.eXDHeader l).bind fun x =>
         match x.1 with
         | [.w16 .u16 version, .w32 .u32 indexSize] =>
           (ParserBE.count Exd.pDataOffset (indexSize / 8).toNat x.2).map fun o => ((version, indexSize, o.1), o.2)
@@ -170,7 +172,7 @@ def excelColumnDefinition : Layout :=
 end Expected
 
 theorem excelColumnDefinition_generated :
-    BinrwExcel.excelColumnDefinition.normalizeAt .little = Expected.excelColumnDefinition.normalizeAt .little := rfl
+    BinrwExcel.excelColumnDefinition.normalizeAt .big = Expected.excelColumnDefinition.normalizeAt .big := rfl
 theorem language_generated :
     (BinrwExcel.languageRepr, BinrwExcel.languageValid) = (.u8, languageValid) := rfl
 
@@ -198,7 +200,7 @@ def languageOfV : Value → Option Exh.Language
   | _ => none
 
 theorem pColumn_eq_expected (l : Bytes) :
-    Exh.pColumn l = via columnOf (Layout.read .little Expected.excelColumnDefinition l) := by
+    Exh.pColumn l = via columnOf (Layout.read .big Expected.excelColumnDefinition l) := by
   binrw_norm [Exh.pColumn, Expected.excelColumnDefinition, p_bind, p_pure, p_pure', pure, p_u16be, p_tryMap,
     column_valid, columnOf]
   cases u16be l with
@@ -224,7 +226,7 @@ theorem pLanguage_eq_expected (l : Bytes) :
 
 theorem countColumn_eq_expected (n : Nat) (l : Bytes) :
     ParserBE.count Exh.pColumn n l =
-      (repeatN (Kind.read .little [] (.struct Expected.excelColumnDefinition)) n l).bind fun vs =>
+      (repeatN (Kind.read .big [] (.struct Expected.excelColumnDefinition)) n l).bind fun vs =>
         (projAll columnOfV vs.1).map (·, vs.2) := by
   apply listReader_eq_repeatN Exh.pColumn (ParserBE.count Exh.pColumn)
   · intro l; rfl
@@ -244,11 +246,11 @@ theorem countLanguage_eq_expected (n : Nat) (l : Bytes) :
   · intro l; exact pLanguage_eq_expected l
 
 theorem pColumn_eq_generated (l : Bytes) :
-    Exh.pColumn l = via columnOf (Layout.read .little BinrwExcel.excelColumnDefinition l) :=
+    Exh.pColumn l = via columnOf (Layout.read .big BinrwExcel.excelColumnDefinition l) :=
   tie pColumn_eq_expected excelColumnDefinition_generated l
 theorem countColumn_eq_generated (n : Nat) (l : Bytes) :
     ParserBE.count Exh.pColumn n l =
-      (repeatN (Kind.read .little [] (.struct BinrwExcel.excelColumnDefinition)) n l).bind fun vs =>
+      (repeatN (Kind.read .big [] (.struct BinrwExcel.excelColumnDefinition)) n l).bind fun vs =>
         (projAll columnOfV vs.1).map (·, vs.2) := by
   rw [countColumn_eq_expected]; simp only [Kind.read, Layout.read_congr _ excelColumnDefinition_generated]
 theorem countLanguage_eq_generated (n : Nat) (l : Bytes) :
@@ -261,27 +263,27 @@ theorem countLanguage_eq_generated (n : Nat) (l : Bytes) :
 
 /-! ### the tie -/
 theorem pHeader_eq_generated (l : Bytes) :
-    Exh.pHeader l = via exhHeaderOf (Layout.read .little BinrwExcel.eXHHeader l) :=
+    Exh.pHeader l = via exhHeaderOf (Layout.read .big BinrwExcel.eXHHeader l) :=
   tie pHeader_eq_expected eXHHeader_generated l
 theorem pPage_eq_generated (l : Bytes) :
-    Exh.pPage l = via pageOf (Layout.read .little BinrwExcel.excelDataPagination l) :=
+    Exh.pPage l = via pageOf (Layout.read .big BinrwExcel.excelDataPagination l) :=
   tie pPage_eq_expected excelDataPagination_generated l
 theorem pDataOffset_eq_generated (l : Bytes) :
-    Exd.pDataOffset l = via dataOffsetOf (Layout.read .little BinrwExcel.excelDataOffset l) :=
+    Exd.pDataOffset l = via dataOffsetOf (Layout.read .big BinrwExcel.excelDataOffset l) :=
   tie pDataOffset_eq_expected excelDataOffset_generated l
 theorem countPage_eq_generated (n : Nat) (l : Bytes) :
     ParserBE.count Exh.pPage n l =
-      (repeatN (Kind.read .little [] (.struct BinrwExcel.excelDataPagination)) n l).bind fun vs =>
+      (repeatN (Kind.read .big [] (.struct BinrwExcel.excelDataPagination)) n l).bind fun vs =>
         (projAll pageOfV vs.1).map (·, vs.2) := by
   rw [countPage_eq_expected]; simp only [Kind.read, Layout.read_congr _ excelDataPagination_generated]
 theorem countDataOffset_eq_generated (n : Nat) (l : Bytes) :
     ParserBE.count Exd.pDataOffset n l =
-      (repeatN (Kind.read .little [] (.struct BinrwExcel.excelDataOffset)) n l).bind fun vs =>
+      (repeatN (Kind.read .big [] (.struct BinrwExcel.excelDataOffset)) n l).bind fun vs =>
         (projAll dataOffsetOfV vs.1).map (·, vs.2) := by
   rw [countDataOffset_eq_expected]; simp only [Kind.read, Layout.read_congr _ excelDataOffset_generated]
 theorem pExdHead_eq_generated (l : Bytes) :
     Exd.pExdHead l =
-      (Layout.read .little BinrwExcel.eXDHeader l).bind fun x =>
+      (Layout.read .big BinrwExcel.eXDHeader l).bind fun x =>
         match x.1 with
         | [.w16 .u16 version, .w32 .u32 indexSize] =>
           (ParserBE.count Exd.pDataOffset (indexSize / 8).toNat x.2).map fun o => ((version, indexSize, o.1), o.2)
